@@ -116,6 +116,7 @@ type SpecDB struct {
 	Lemmas []*Lemma
 	Order  []string
 	UFuncs map[string]*UFunc
+	PoolInvs map[string]*Clause // type string -> invariant over `it` of pooled objects
 }
 
 // UFunc is an uninterpreted ghost function: //@ ghost func name(Int, Real) Int
@@ -133,12 +134,12 @@ func newSpecDB() *SpecDB {
 }
 
 func newSpecDB0() *SpecDB {
-	return &SpecDB{Funcs: map[string]*FuncSpec{}, Ghosts: map[string]*GhostVar{}, SFuncs: map[string]*SpecFunc{}, UFuncs: map[string]*UFunc{}}
+	return &SpecDB{Funcs: map[string]*FuncSpec{}, Ghosts: map[string]*GhostVar{}, SFuncs: map[string]*SpecFunc{}, UFuncs: map[string]*UFunc{}, PoolInvs: map[string]*Clause{}}
 }
 
 var clauseKw = map[string]bool{"requires": true, "ensures": true, "modifies": true, "panics": true, "props": true,
 	"loop": true, "invariant": true, "pure": true, "stable": true, "assumed": true, "concurrent": true, "noinline": true, "unroll": true, "let": true, "decreases": true, "witness": true, "replay": true, "case": true, "use": true, "objinv": true, "sets": true, "shared": true, "onwrite": true}
-var topKw = map[string]bool{"ilemma": true, "func": true, "iface": true, "callback": true, "ghost": true, "spec": true, "lemma": true}
+var topKw = map[string]bool{"poolinv": true, "ilemma": true, "func": true, "iface": true, "callback": true, "ghost": true, "spec": true, "lemma": true}
 
 func firstWord(s string) (string, string) {
 	s = strings.TrimSpace(s)
@@ -223,6 +224,20 @@ func (db *SpecDB) loadFile(path, pkgPath string) error {
 			continue
 		}
 		switch w {
+		case "poolinv":
+			// poolinv "*pkg.Type": expr over `it`
+			r := strings.TrimSpace(rest)
+			j := strings.Index(r, ":")
+			if j < 0 || !strings.HasPrefix(r, "\"") {
+				return fail("poolinv \"*pkg.Type\": expr")
+			}
+			tn := strings.Trim(strings.TrimSpace(r[:j]), "\"")
+			e, err := parseExpr(r[j+1:])
+			if err != nil {
+				return fail(err.Error())
+			}
+			db.PoolInvs[tn] = &Clause{Kind: "poolinv", Label: tn, Text: r[j+1:], Expr: e, Line: it.line, File: path, Props: []string{pkgPath}}
+			cur = nil
 		case "ilemma":
 			// ilemma name {props} (a Sort, b Sort) induction i
 			r := strings.TrimSpace(rest)
